@@ -43,6 +43,21 @@ def _run(shard):
             rep.violations = {k + "/with-debug-logging": v for k, v in rep.violations.items()}
             rep.viol_counts = {k + "/with-debug-logging": v for k, v in rep.viol_counts.items()}
             rep.nontrivial = {__import__("hashlib").blake2b(h + b"dbg", digest_size=8).digest() for h in rep.nontrivial}
+        elif isinstance(shard, tuple) and shard and shard[-1] == "python-O":
+            # environment dimension: the same shard in an interpreter started with -O (assert statements and `if __debug__` blocks are
+            # compiled out): behaviour the property promises must not rest on them
+            import pickle
+            import subprocess
+
+            env = dict(os.environ, PYTHONHASHSEED="0", PYTHONPATH=os.pathsep.join([os.path.dirname(os.path.dirname(os.path.dirname(os.path.abspath(__file__))))]))
+            p = subprocess.run([sys.executable, "-O", "-m", "vmc.core.shardproc", _MOD.__name__, _TIER, str(_SEED)], input=pickle.dumps(shard[1] if shard[0] == "@" else shard[:-1]),  # ("@", x, "python-O") wraps a shard x that is not a tuple
+                               capture_output=True, env=env, timeout=limit)
+            mark = p.stdout.rfind(b"\n@@REPORT@@")
+            if p.returncode != 0 or mark < 0:
+                raise RuntimeError("python -O child failed (%s): %s" % (p.returncode, p.stderr.decode(errors="replace")[-1500:]))
+            rep = pickle.loads(p.stdout[mark + len(b"\n@@REPORT@@"):])
+            rep.violations = {k + "/under-python-O": v for k, v in rep.violations.items()}
+            rep.viol_counts = {k + "/under-python-O": v for k, v in rep.viol_counts.items()}
         else:
             rep = _MOD.run_shard(shard, _TIER, _SEED)
         return ("ok", shard, rep.compact())
